@@ -403,6 +403,21 @@ theorem C16_stop_witness :
     build repoVariant Ex.fStopSugar = .err (.stopRef 2) ∧ build repoVariant Ex.fStopSep = .err (.stopRef 2) := by
   decide
 
+/-- **`AUG` / `AUGL` are never referenced**: no production of a grammar built by a variant with `reservedRefErr`
+names an augmented nonterminal — directly, named, under repetition sugar or as a separator (the table builder
+does not terminate on such a grammar).  No hypothesis on the file. -/
+theorem C16_no_aug_reference (fx : Fixes) (f : File) (g : Grammar) (hf : fx.reservedRefErr = true)
+    (h : build fx f = .ok g) : ∀ p, p ∈ g.prods → ∀ a, a ∈ p.rhs → a.sym ≠ .name kAUG ∧ a.sym ≠ .name kAUGL :=
+  build_noAug hf h
+
+/-- `S: Ta AUG;` built `S → Ta AUG` (symbol 5 = the augmented nonterminal) before 898fba1; now a diagnostic, for
+every form of the reference (in the sugar forms it is found in the helper's production) -/
+theorem C16_aug_witness :
+    (match build {} Ex.fAugRef with | .ok g => (g.augIdx, g.prods.map GProd.rhsSyms) | _ => (0, [])) = (5, [[6], [1, 5]]) ∧
+    build repoVariant Ex.fAugRef = .err (.reserved (nm "AUG")) ∧ build repoVariant Ex.fAugNamed = .err (.reserved (nm "AUG")) ∧
+    build repoVariant Ex.fAugSugar = .err (.reserved (nm "AUG")) ∧ build repoVariant Ex.fAugSep = .err (.reserved (nm "AUGL")) := by
+  decide
+
 /-! ## Non-vacuity: a grammar with every kind of sugar satisfies all hypotheses, in both variants -/
 
 example : Clean {} Ex.fGood ∧ Clean Fixes.all Ex.fGood ∧ Clean repoVariant Ex.fGood :=
